@@ -158,9 +158,11 @@ WORLD_WRAPS = ["coap_ticks", "coap_socket_bind_udp", "coap_socket_connect_udp", 
                "coap_socket_recv", "coap_socket_close", "coap_socket_bind_tcp",
                "coap_socket_accept_tcp", "coap_socket_connect_tcp1", "coap_socket_connect_tcp2",
                "coap_socket_read", "coap_socket_write", "coap_malloc_type", "coap_realloc_type",
-               "coap_free_type"]
+               "coap_free_type",
+               # persistence crash points (harness/persist.c); pass-through unless `persist` is used
+               "fopen", "fclose", "fwrite", "fread", "fgets", "fflush", "fprintf", "rename", "remove"]
 
 
 def ensure_world(variant="asan"):
-    return ensure_harness(variant, "world", ["world.c", "wraps.c"], wraps=WORLD_WRAPS,
+    return ensure_harness(variant, "world", ["world.c", "wraps.c", "persist.c"], wraps=WORLD_WRAPS,
                           extra_ldflags=["-rdynamic"])
